@@ -450,3 +450,38 @@ func etagEq(a, b string) bool { return strings.Trim(a, "\"") == strings.Trim(b, 
 
 func osMkdirAll(p string)            { os.MkdirAll(p, 0o755) }
 func osWriteFile(p string, b []byte) { os.WriteFile(p, b, 0o644) }
+
+// mapRaceViolations turns the simulator's map-access collisions into violations of prop: two tasks
+// stood at accesses of the same shared map at the same instant, one of them writing. Nothing orders
+// the two accesses, so in a real process they can overlap, which the Go runtime answers with the
+// unrecoverable "fatal error: concurrent map read and map write" (the gateway process ends).
+func mapRaceViolations(o *core.Outcome, s *sim.Sim, prop, desc string) bool {
+	if len(s.MapRaces) == 0 {
+		return false
+	}
+	for _, r := range s.MapRaces {
+		a, b := stripLine(r.SiteA), stripLine(r.SiteB)
+		if b < a {
+			a, b = b, a
+		}
+		kind := func(w bool) string {
+			if w {
+				return "write"
+			}
+			return "read"
+		}
+		o.Violate("unsynchronised-map", prop+"/unsynchronised-map/"+a+"+"+b,
+			"%s: task t%d stands at a %s of a shared map at %s while task t%d stands at a %s of the same map at %s: nothing orders the two accesses (Go ends the process with 'concurrent map read and map write' when they overlap)",
+			desc, r.TaskA, kind(r.WriteA), r.SiteA, r.TaskB, kind(r.WriteB), r.SiteB)
+	}
+	s.MapRaces = nil
+	return true
+}
+
+// stripLine: "auth/iam_cache.go:69" -> "auth/iam_cache.go" (signatures survive unrelated edits of the file)
+func stripLine(site string) string {
+	if i := strings.LastIndexByte(site, ':'); i >= 0 {
+		return site[:i]
+	}
+	return site
+}
